@@ -582,6 +582,16 @@ pub fn c19(tier: Tier) -> i32 {
     let mut opts = SpaceOpts::standard(tier);
     opts.subst_pairs = 0;
     opts.subst_single = tier.pick(2, 3);
+    if tier == Tier::Thorough {
+        // every expression costs a dozen conversions and an enumeration of all live paths
+        // (measured: the standard thorough space does not finish in 25 minutes on 16 cores): the
+        // thorough tier keeps the quick shapes, adds the reduced alphabet at size 5 and the full
+        // wrapper set at nesting depth 2, and raises the path length bound
+        opts.shape = 4;
+        opts.reduced = 5;
+        opts.position = 2;
+        opts.position_full = 2;
+    }
     let l = tier.pick(4usize, 6usize);
     for_each_glob(&rep, &opts, &|e, g, c| {
         let base = answers(g);
